@@ -35,20 +35,20 @@ def _impl_signal(c):
                 # the call did on its way to the exception, the settings dictionary and every later call must be unaffected
                 for fkv in (fk, None):
                     try:
-                        find_extrema(np.asarray(proto.hex2arr(c['sig']))[:12], c['fs'], tuple(c['f_range']), filter_kwargs=fkv, pad=False)
+                        find_extrema(np.asarray(proto.hex2arr(c['sig']))[:12], c['fs'], implutil.frange(c), filter_kwargs=fkv, pad=False)
                     except Exception:
                         pass
                 if repr(fk) != snap: return ['err', 'RefusedCallChangedOptions']
-            pk, tr = find_extrema(sig, c['fs'], tuple(c['f_range']), boundary=c['boundary'], first_extrema=c['first'], filter_kwargs=fk, pad=c['pad'], **ptk)
+            pk, tr = find_extrema(sig, c['fs'], implutil.frange(c), boundary=c['boundary'], first_extrema=c['first'], filter_kwargs=fk, pad=c['pad'], **ptk)
             # the caller keeps using its settings dictionary: a second call must see the same settings
-            pk2, tr2 = find_extrema(sig, c['fs'], tuple(c['f_range']), boundary=c['boundary'], first_extrema=c['first'], filter_kwargs=fk, pad=c['pad'], **ptk)
+            pk2, tr2 = find_extrema(sig, c['fs'], implutil.frange(c), boundary=c['boundary'], first_extrema=c['first'], filter_kwargs=fk, pad=c['pad'], **ptk)
             if repr(fk) != snap or not (np.array_equal(pk, pk2) and np.array_equal(tr, tr2)):
                 return ['err', 'SecondCallDiffers']
             if c['first'] == 'peak' and len(pk) >= 1 and len(tr) >= 1 and not c.get('pass_type'):
                 # the feature-level route: compute_cyclepoints hands the same options on and builds its table from these arrays
                 from bycycle.features import compute_cyclepoints
                 try:
-                    df = compute_cyclepoints(sig, c['fs'], tuple(c['f_range']), boundary=c['boundary'], filter_kwargs=fk, pad=c['pad'])
+                    df = compute_cyclepoints(sig, c['fs'], implutil.frange(c), boundary=c['boundary'], filter_kwargs=fk, pad=c['pad'])
                     if not (np.array_equal(df['sample_peak'].values, pk[1:]) and np.array_equal(df['sample_last_trough'].values, tr[:-1])
                             and np.array_equal(df['sample_next_trough'].values, tr[1:])):
                         return ['err', 'CyclepointsRouteDiffers']
@@ -143,7 +143,7 @@ def evaluate(ctx, cases):
         if c['kind'] == 'signal':
             sig = proto.hex2arr(c['sig'])
             try:
-                pad, b = kernels.filt_sign(sig, c['fs'], tuple(c['f_range']), c['fk'], c['pad'], c.get('pass_type', 'bandpass'))
+                pad, b = kernels.filt_sign(sig, c['fs'], implutil.frange(c), c['fk'], c['pad'], c.get('pass_type', 'bandpass'))
             except Exception as e:
                 skip.append(True); impls.append(None); reqs += ['ping', 'ping']; continue
             first = 'None' if c['first'] is None else c['first']
